@@ -1443,3 +1443,72 @@ def lazy_thunks(check: Check, repo: Repo, rule: str = "LAZY-THUNKS") -> None:
                          f"uses {used}, computed eagerly by `{unparse(eager[used[0]].value)[:50]}` (line {eager[used[0]].lineno}) before the thunk runs")
     if n < 30:
         raise AnalysisError(f"LAZY-THUNKS: only {n} sites found")
+
+
+def introspection_depth_lists(check: Check, repo: Repo, rule: str = "DEPTH-LISTS") -> None:
+    check.rule(
+        rule,
+        "MaxIntrospectionDepthRule counts exactly the list fields of __Type through which a query can come back to "
+        "__Type - derived from type/introspection.py: the entries of TypeFields whose type is a list of __Type itself or "
+        "of a type that has a field of type __Type (__Field, __InputValue). That is {fields, interfaces, possibleTypes, "
+        "inputFields}; `enumValues` (a list of __EnumValue, which has no type field) and `args` (not a field of __Type) are "
+        "not counted. Counting more rejects ad-hoc introspection selections that the specification's tooling sends and "
+        "that execute without error ('Maximum introspection depth exceeded' at two nested type lists)",
+    )
+    im = repo.mod("type.introspection")
+    # which meta types have a field whose type mentions _Type
+    field_maps = {c.name: c for c in im.classes() if c.name.endswith("Fields")}
+
+    def entries(cname: str) -> dict[str, str]:
+        c = field_maps.get(cname)
+        out: dict[str, str] = {}
+        if c is None:
+            return out
+        for d in ast.walk(c):
+            if isinstance(d, ast.Dict):
+                for k, v in zip(d.keys, d.values):
+                    if isinstance(k, ast.Constant) and isinstance(v, ast.Call) and call_name(v) == "GraphQLField" and v.args:
+                        out[str(k.value)] = unparse(v.args[0])
+                break
+        return out
+
+    owner_of = {"_Field": "FieldFields", "_InputValue": "InputValueFields", "_EnumValue": "EnumValueFields", "_Type": "TypeFields", "_Directive": "DirectiveFields"}
+    reaches_type = {t for t, cn in owner_of.items() if t == "_Type" or any("_Type)" in ty or ty.endswith("_Type") for ty in entries(cn).values())}
+    type_fields = entries("TypeFields")
+    if len(type_fields) < 8:
+        raise AnalysisError("type/introspection.py: TypeFields entries not found")
+    want = set()
+    for name, ty in type_fields.items():
+        if "GraphQLList(" in ty:
+            elem = ty.replace("GraphQLNonNull(", "").replace("GraphQLList(", "").rstrip(")")
+            if elem in reaches_type:
+                want.add(name)
+    fn = repo.func("validation.rules.max_introspection_depth_rule", "MaxIntrospectionDepthRule._check_depth")
+    tuples = [t for t in walk_body(fn) if isinstance(t, ast.Tuple) and len(t.elts) >= 3 and all(isinstance(e, ast.Constant) and isinstance(e.value, str) for e in t.elts)]
+    if len(tuples) != 1:
+        raise AnalysisError("_check_depth: the tuple of counted field names was not found")
+    got = {e.value for e in tuples[0].elts}
+    check.ob(rule, tuples[0], f"_check_depth counts {sorted(got)}", got == want,
+             f"= the recursive list fields of __Type derived from TypeFields ({sorted(want)})" if got == want else
+             f"derived from TypeFields: {sorted(want)}; extra {sorted(got - want)}, missing {sorted(want - got)}")
+
+
+def type_lookup_from_schema(check: Check, repo: Repo, rule: str = "TYPE-LOOKUP") -> None:
+    from sa.tables import inline_locals
+
+    check.rule(
+        rule,
+        "`__type(name:)` answers from the same table as `__schema { types }`: the resolver MetaFields.type returns "
+        "`info.schema.get_type(<name>)` and nothing else (locals expanded) - no fallback to a global table of built-in "
+        "types. A fallback (`or specified_scalar_types.get(name)`) makes `__type(name: Float)` describe a type that "
+        "the schema's own type list does not contain, so single-type lookups and the full list disagree",
+    )
+    fn = repo.func("type.introspection", "MetaFields.type")
+    rets = [r for r in walk_body(fn) if isinstance(r, ast.Return) and r.value is not None]
+    if not rets:
+        raise AnalysisError("MetaFields.type: no return")
+    for r in rets:
+        v = inline_locals(r.value, fn)
+        ok = isinstance(v, ast.Call) and unparse(v.func).endswith("schema.get_type") and len(v.args) == 1
+        check.ob(rule, r, f"MetaFields.type: return {unparse(r.value)[:60]}", ok,
+                 "the schema's own type map" if ok else f"`{unparse(v)[:70]}` is not a plain lookup in the schema's type map")
